@@ -125,6 +125,11 @@ class SourceAD(MVPN):
             )
         cursor += sourceiplen
 
+        # The total length was checked against the IPv4 and IPv6 sizes, not against the source length the
+        # route announces: a short route announcing a 128 bit source put the group length past the end.
+        if cursor >= len(packed):
+            raise Notify(3, 5, f'Invalid Source Active A-D route: a {sourceiplen * 8} bit source does not fit in {len(packed)} bytes.')
+
         # Validate group IP length
         groupiplen = int(packed[cursor] / 8)
         if groupiplen != IPv4.BYTES and groupiplen != IPv6.BYTES:
@@ -132,6 +137,13 @@ class SourceAD(MVPN):
                 3,
                 5,
                 f'Unsupported Source Active A-D Route Multicast Group IP length ({groupiplen * 8} bits). Expected 32 bits (IPv4) or 128 bits (IPv6).',
+            )
+
+        if cursor + 1 + groupiplen != len(packed):
+            raise Notify(
+                3,
+                5,
+                f'Invalid Source Active A-D route: source of {sourceiplen * 8} bits and group of {groupiplen * 8} bits do not add up to {len(packed)} bytes.',
             )
 
         # Missing implementation of this check from RFC 6514:
